@@ -1,24 +1,74 @@
 """fork-based parallel map (obligation generation + discharge per work item in a worker process)."""
 from __future__ import annotations
-import multiprocessing as mp, os, traceback
+import os, traceback
 
-_FN = None
-def _call(x):
+CHILDREN: set[int] = set()        # live worker pids (the watchdog in pyvc.main kills them)
+
+def _run_item(fn, x):
     try:
-        return ('ok', _FN(x))
+        return ('ok', fn(x))
     except BaseException as e:
         return ('err', f'{x!r}: ' + ''.join(traceback.format_exception(type(e), e, e.__traceback__))[-1500:])
 
 def pmap(fn, items, jobs=None):
-    global _FN
+    """ordered parallel map, one forked process per item (at most `jobs` at a time).  A process per item keeps the memory of one
+    work item from accumulating in a long-lived worker, and a worker that dies (killed for memory, crashed interpreter) is seen as
+    the end of its pipe: its item is reported as failed instead of being waited for forever."""
+    import pickle, select
     items = list(items)
     jobs = jobs or min(len(items), int(os.environ.get('VERIF_JOBS', '16')))
     if jobs <= 1 or len(items) <= 1:
         return [fn(x) for x in items]
-    _FN = fn
-    ctx = mp.get_context('fork')
-    with ctx.Pool(jobs) as pool:
-        out = pool.map(_call, items, chunksize=1)
+    n = len(items)
+    out = [None] * n
+    running = {}                     # pid -> [index, read fd, buffer]
+    nxt = 0
+    try:
+        while nxt < n or running:
+            while nxt < n and len(running) < jobs:
+                r, w = os.pipe()
+                pid = os.fork()
+                if pid == 0:
+                    code = 0
+                    try:
+                        os.close(r)
+                        for _pid, (_i, fd, _b) in running.items():
+                            try: os.close(fd)
+                            except OSError: pass
+                        try: data = pickle.dumps(_run_item(fn, items[nxt]), protocol=pickle.HIGHEST_PROTOCOL)
+                        except BaseException as e: data = pickle.dumps(('err', f'{items[nxt]!r}: result cannot be sent back: {e!r}'))
+                        with os.fdopen(w, 'wb') as f: f.write(data)
+                    except BaseException:
+                        code = 1
+                    finally:
+                        os._exit(code)
+                os.close(w)
+                running[pid] = [nxt, r, bytearray()]; CHILDREN.add(pid)
+                nxt += 1
+            ready, _, _ = select.select([v[1] for v in running.values()], [], [], 1.0)
+            for pid, (i, r, buf) in list(running.items()):
+                if r not in ready: continue
+                chunk = os.read(r, 1 << 20)
+                if chunk:
+                    buf.extend(chunk); continue
+                os.close(r)
+                try: _, status = os.waitpid(pid, 0)
+                except ChildProcessError: status = 0
+                del running[pid]; CHILDREN.discard(pid)
+                if buf:
+                    try: out[i] = pickle.loads(bytes(buf))
+                    except Exception as e: out[i] = ('err', f'{items[i]!r}: unreadable worker result ({e!r})')
+                else:
+                    out[i] = ('err', f'{items[i]!r}: the worker process ended without a result (wait status {status})')
+    finally:
+        for pid, (i, r, buf) in running.items():
+            try: os.kill(pid, 9)
+            except OSError: pass
+            try: os.close(r)
+            except OSError: pass
+            try: os.waitpid(pid, 0)
+            except OSError: pass
+            CHILDREN.discard(pid)
     res = []
     for tag, v in out:
         if tag == 'err': raise RuntimeError('worker failed: ' + v)
